@@ -248,7 +248,7 @@ def _run_driver(family, cases, tmp, tag, timeout):
     return res
 
 
-def run_shards(family, shards, timeout=1800, augment=None):
+def run_shards(family, shards, timeout=1800, augment=None, no_model=False):
     """shards: list of lists of case dicts (ids unique across shards). Returns (impl, model) dicts by id."""
     tmp = tempfile.mkdtemp(prefix="cocaverif_")
     try:
@@ -264,7 +264,7 @@ def run_shards(family, shards, timeout=1800, augment=None):
                 r = a.get(c["id"])
                 if r is not None and r.get("site") == "process":
                     cases.append({"id": 0, "op": "__reset__"})
-            b = _run_driver(family, cases, tmp, "s%d" % i, timeout)
+            b = {} if no_model else _run_driver(family, cases, tmp, "s%d" % i, timeout)
             return a, b
         impl, model = {}, {}
         with ThreadPoolExecutor(max_workers=NCPU) as ex:
